@@ -1,24 +1,51 @@
 #!/bin/bash
-# builds the harness binaries from the current /repo working tree, with the
-# verification hooks (guard: build tag "verif") added by a build overlay, so
-# /repo itself is never modified.
+# builds the harness binaries from the current /repo working tree.
+#   h  : the harness with the add-only export hooks (guard: build tag "verif"), added by build overlay
+#   hs : the same harness with grip's concurrency-bearing files rewritten by tools/instr so that every
+#        channel/mutex/goroutine operation goes through the controlled scheduler (engines/vsched)
+# /repo itself is never modified; the overlays are regenerated from the current files on every build.
 set -eu
 cd "$(dirname "$0")"
 export GOFLAGS=-mod=mod GOPROXY=off GOSUMDB=off GOTOOLCHAIN=local
 export VERIF_ROOT="$(pwd)"
 REPO="${VERIF_REPO:-/repo}"
-mkdir -p .work/bin
-# overlay: add-only export files
-python3 - "$REPO" "$VERIF_ROOT" > .work/overlay.json <<'PY'
+WHAT="${1:-all}"
+mkdir -p .work/bin .work/instr
+# tools
+if [ ! -x .work/bin/instr ] || [ tools/instr/main.go -nt .work/bin/instr ]; then
+  (cd tools/instr && cp -n /repo/go.sum go.sum 2>/dev/null; go build -o ../../.work/bin/instr .)
+fi
+hooks_overlay() {
+python3 - "$REPO" "$VERIF_ROOT" "$1" <<'PY'
 import json,sys,os
-repo,root=sys.argv[1],sys.argv[2]
+repo,root,instr=sys.argv[1],sys.argv[2],sys.argv[3]
 m={}
 hooks=os.path.join(root,'engines','hooks')
 for f in sorted(os.listdir(hooks)):
     if f.endswith('_export_verif.go'):
         pkg=f[:-len('_export_verif.go')]
         m[os.path.join(repo,pkg,'export_verif.go')]=os.path.join(hooks,f)
+if instr:
+    d=json.load(open(instr))
+    m.update(d['overlay'])
+    vs=os.path.join(root,'engines','vsched')
+    for dirpath,_,files in os.walk(vs):
+        for f in files:
+            if f.endswith('.go'):
+                rel=os.path.relpath(os.path.join(dirpath,f),vs)
+                m[os.path.join(repo,'verifsched',rel)]=os.path.join(dirpath,f)
 print(json.dumps({'Replace':m},indent=1))
 PY
-cd harness
-go build -tags verif -overlay ../.work/overlay.json -o ../.work/bin/h ./cmd/h
+}
+case "$WHAT" in C07|C12|C13|C17) need_hs=1; need_h=0;; all) need_hs=1; need_h=1;; *) need_hs=0; need_h=1;; esac
+if [ "$need_h" = 1 ]; then
+  hooks_overlay "" > .work/overlay.json
+  (cd harness && go build -tags verif -overlay ../.work/overlay.json -o ../.work/bin/h ./cmd/h)
+fi
+if [ "$need_hs" = 1 ]; then
+  FILES=engine/logic/jump.go,engine/queue/queue.go,engine/pipeline/pipes.go,engine/core/processors.go,jobstorage/serializer.go,gripper/channel_mux.go,gdbi/processor.go
+  .work/bin/instr -repo "$REPO" -out "$VERIF_ROOT/.work/instr" -files "$FILES" \
+     -mute engine/logic/jump.go,engine/queue/queue.go -clock gdbi/processor.go > .work/instr/out.json
+  hooks_overlay .work/instr/out.json > .work/overlay_sched.json
+  (cd harness && go build -tags "verif vsched" -overlay ../.work/overlay_sched.json -o ../.work/bin/hs ./cmd/h)
+fi
